@@ -61,13 +61,13 @@ let gen_history (idx : int) (prof : eprofile) (oc : out_channel) =
       else if m = target then true
       else if (match rest with m2 :: _ -> m2 = m | [] -> false) then true
       else
-        let now = int_of_n st.y_gw.gw_now in
+        let now = max (int_of_n st.y_gw.gw_now) (int_of_n st.y_cl.cl_now) in
         let (st', _) = sys_step cfg st (SAdv (n_of_int (max 1 (m - now)))) in
         ambiguous st' target (fuel - 1) in
   let emit (text : string) : bool =
     let ev = E2e_io.parse_event text in
     let ok_adv = (match ev with
-        | SAdv d -> not (ambiguous !y (int_of_n !y.y_gw.gw_now + int_of_n d) 400)
+        | SAdv d -> not (ambiguous !y (max (int_of_n !y.y_gw.gw_now) (int_of_n !y.y_cl.cl_now) + int_of_n d) 400)
         | _ -> true) in
     if not ok_adv then false else begin
       let (y', _) = sys_step cfg !y ev in
